@@ -23,7 +23,7 @@
    observed by the harness (both inputs before/after each call, and the model
    is compared against the inputs as they are AFTER the call). *)
 From Coq Require Import List ZArith Bool Arith Permutation.
-From NT Require Import Sx Rose Diff DiffProofs DiffMore DiffSrc DiffIds CaseC11.
+From NT Require Import Sx Rose Diff DiffProofs DiffMore DiffSrc DiffIds DiffMeta CaseC11.
 From NTGen Require Import Generated.
 Import ListNotations.
 
@@ -260,3 +260,30 @@ Print Assumptions C11_result_identities_distinct.
 Theorem C11_generated_facts_present : GEN_ENUMS_OK = true.
 Proof. reflexivity. Qed.
 Print Assumptions C11_generated_facts_present.
+
+(* ---- the result carries only the diff's own metadata --------------------------- *)
+(* for ANY two forests whose nodes carry ANY metadata, every iteration order and
+   every configuration: the result's root and nodes carry only the keys "dc" and
+   "dc_renumbered" (user metadata of the inputs is not copied) ... *)
+Theorem C11_result_meta_is_diff_only : forall order ordered reduce t0 t1,
+  let r := diff_with order ordered reduce t0 t1 in
+  Forall (fun kv => fst kv = k_dc \/ fst kv = k_ren) (fst r) /\
+  Forall (fun x => Forall (fun kv => fst kv = k_dc \/ fst kv = k_ren) (rmeta x)) (pre_f (snd r)).
+Proof. exact result_meta_is_diff_only. Qed.
+Print Assumptions C11_result_meta_is_diff_only.
+
+(* ... and it is not read either: clearing the metadata of all input nodes gives
+   the same result (so marks left in an input by whatever history cannot
+   influence a later diff) *)
+Theorem C11_diff_ignores_input_meta : forall order ordered reduce t0 t1,
+  diff_with order ordered reduce (map strip t0) (map strip t1) = diff_with order ordered reduce t0 t1.
+Proof. exact diff_ignores_input_meta. Qed.
+Print Assumptions C11_diff_ignores_input_meta.
+
+Example ex_user_meta_not_copied :
+  let um := [([117], A 1)]%Z in
+  let t0 := [T 1 (I 1 1 7 true [97] (DInt 7) None um) []; T 2 (I 2 2 8 true [98] (DInt 8) None um) []]%Z in
+  let t1 := [T 3 (I 2 2 8 true [98] (DInt 8) None um) []]%Z in
+  map (fun x => rmeta x) (pre_f (snd (diff_with [] true false t0 t1))) = [[(k_dc, dc_sx REMOVED)]; [(k_dc, order_sx 1 0)]] /\
+  snd (diff_with [] true true t0 t1) = snd (diff_with [] true false t0 t1).
+Proof. split; reflexivity. Qed.
